@@ -2324,6 +2324,40 @@ func ruleCatchDeclines(c *Ctx, r *Report) {
 	if n == 0 {
 		r.bad(rule, fname(handler)+"/decline", c.Pos(handler.Pos()), desc, "the handler never declines: every catch/3 would take every ball")
 	}
+	// (after seed C04f) ... and it ACCEPTS only an error that did not come through the marker, whatever kind of
+	// error it is: the unification with the catcher is reached only where the marker's variable is known unset.
+	// A marker test that sits on the Exception branch alone lets an exited catch/3 take the Go errors (I/O
+	// failures, recovered panics) of later goals.
+	m := 0
+	eachInstr(handler, func(in ssa.Instruction) {
+		call, ok := in.(*ssa.Call)
+		if !ok || call.Call.StaticCallee() != unify {
+			return
+		}
+		m++
+		key := fmt.Sprintf("%s/accept#%d", fname(handler), m)
+		d2 := "the handler of catch/3 unifies the catcher only with an error that did not come through the marker of an exited goal"
+		unset := false
+		for f := range c.factsAt(in.Block()) {
+			v, pol := f.cond, f.pol
+			if u, ok := v.(*ssa.UnOp); ok && u.Op == token.NOT {
+				v, pol = u.X, !pol
+			}
+			if ld, ok := v.(*ssa.UnOp); ok && ld.Op == token.MUL && !pol {
+				if _, isFree := ld.X.(*ssa.FreeVar); isFree {
+					unset = true
+				}
+			}
+		}
+		if unset {
+			r.ok(rule, key, c.at(in), d2, "under the fact that the marker's variable is unset", true)
+		} else {
+			r.bad(rule, key, c.at(in), d2, "the catcher is unified on a path that never tested the marker: some kind of error raised after Goal has exited is caught by the exited catch/3")
+		}
+	})
+	if m == 0 {
+		r.undecided(rule, fname(handler)+"/accept", c.Pos(handler.Pos()), desc, "the handler never unifies the catcher")
+	}
 	r.analysed(rule, fname(handler))
 }
 
@@ -2576,5 +2610,178 @@ func ruleLoadPollsCtx(c *Ctx, r *Report) {
 	}
 	if n == 0 {
 		r.undecided(rule, "scan/reading-loop", "-", desc, "no clause-reading loop with a context found")
+	}
+}
+
+// ---------------------------------------------------------------------------
+// R-ENUM-UNIFIES (C18; added after seed C18f): "current_op/3 enumerates exactly the table."  A predicate that
+// reports the entries of a table answers in every instantiation pattern by UNIFYING the pattern of its
+// arguments with an entry: that is what makes check mode (all arguments bound) and enumeration mode agree.  In
+// the enumerating built-ins listed here the continuation is used in one way only - as an argument of the
+// unification built-in - and that call is given a term built from ALL of the predicate's arguments.  A shortcut
+// that calls the continuation directly after comparing some of the arguments (a "fast path for the bound
+// case") answers yes for entries that differ in the argument it did not compare.
+var enumeratingBuiltins = []struct {
+	name  string
+	arity int
+}{{"current_op", 3}, {"current_prolog_flag", 2}} // current_char_conversion/2 looks a bound first argument up as the key of its table: not of this shape
+
+func ruleEnumUnifies(c *Ctx, r *Report) {
+	const rule = "R-ENUM-UNIFIES"
+	desc := "an enumerating built-in succeeds only by unifying the pattern of all its arguments with an entry"
+	unify := c.fn("Unify")
+	if unify == nil {
+		r.undecided(rule, "anchor:Unify", "-", "locate engine.Unify", "not found")
+		return
+	}
+	for _, eb := range enumeratingBuiltins {
+		fn := c.registeredFn(eb.name, eb.arity)
+		key := fmt.Sprintf("%s/%d", eb.name, eb.arity)
+		if fn == nil {
+			r.undecided(rule, key, "-", desc, "not registered")
+			continue
+		}
+		ks := paramsWhere(fn, c.isContType)
+		if len(ks) != 1 {
+			r.undecided(rule, key, c.Pos(fn.Pos()), desc, "the continuation parameter was not recognised")
+			continue
+		}
+		// the argument parameters: those of type Term
+		var argParams []*ssa.Parameter
+		for _, p := range fn.Params {
+			if isEngNamed(p.Type(), "Term") {
+				argParams = append(argParams, p)
+			}
+		}
+		isK := func(v ssa.Value) bool {
+			for _, l := range c.originSet(v) {
+				if l == ssa.Value(ks[0]) {
+					return true
+				}
+				if fv, ok := l.(*ssa.FreeVar); ok && fv.Name() == ks[0].Name() && c.isContType(fv.Type()) {
+					return true
+				}
+			}
+			return false
+		}
+		bad, why := ssa.Instruction(nil), ""
+		uses := 0
+		for _, f := range withAnon(fn) {
+			eachInstr(f, func(in ssa.Instruction) {
+				call, ok := in.(*ssa.Call)
+				if !ok || bad != nil {
+					return
+				}
+				if !call.Call.IsInvoke() && isK(call.Call.Value) {
+					uses++
+					bad, why = in, "the continuation is called directly"
+					return
+				}
+				for _, a := range call.Call.Args {
+					if !c.isContType(a.Type()) || !isK(a) {
+						continue
+					}
+					uses++
+					if call.Call.StaticCallee() != unify {
+						bad, why = in, "the continuation is handed to "+calleeName(call.Common())+" instead of the unification"
+						return
+					}
+					// one of the two terms unified mentions every argument
+					covered := map[*ssa.Parameter]bool{}
+					for _, t := range call.Call.Args[1:3] {
+						seen := map[ssa.Value]bool{}
+						var walk func(v ssa.Value, d int)
+						walk = func(v ssa.Value, d int) {
+							if v == nil || seen[v] || d > 12 {
+								return
+							}
+							seen[v] = true
+							for _, l := range c.originSet(v) {
+								switch x := l.(type) {
+								case *ssa.Parameter:
+									for _, p := range argParams {
+										if x == p {
+											covered[p] = true
+										}
+									}
+								case *ssa.FreeVar:
+									for _, p := range argParams {
+										if x.Name() == p.Name() {
+											covered[p] = true
+										}
+									}
+								case *ssa.Call:
+									for _, a2 := range x.Call.Args {
+										walk(a2, d+1)
+										for _, e := range variadicElems(a2) {
+											walk(e, d+1)
+										}
+									}
+								}
+							}
+						}
+						walk(t, 0)
+					}
+					if len(covered) != len(argParams) {
+						bad, why = in, fmt.Sprintf("the terms unified mention %d of the %d arguments", len(covered), len(argParams))
+					}
+				}
+			})
+		}
+		switch {
+		case bad != nil:
+			r.bad(rule, key, c.at(bad), desc, why+": an entry that differs in an argument that was not unified is answered as if it matched")
+		case uses == 0:
+			r.undecided(rule, key, c.Pos(fn.Pos()), desc, "no use of the continuation found")
+		default:
+			r.ok(rule, key, c.Pos(fn.Pos()), desc, fmt.Sprintf("%d uses of the continuation, each as the continuation of Unify over a term built from all %d arguments", uses, len(argParams)), true)
+		}
+	}
+}
+
+// ---------------------------------------------------------------------------
+// R-LOOP-CAPTURE (C11, C01; added after seed C11f): the alternatives a built-in hands to the trampoline are
+// closures that run LATER, after the loop that created them has finished.  A variable that is declared outside
+// the loop, assigned anew in every iteration and captured by the closures made in that loop is one variable:
+// every closure sees the value of the last iteration.  (Variables declared inside the loop body are fresh per
+// iteration.)  Checked for every engine function: no closure created inside a CFG cycle captures a cell that is
+// allocated outside the cycle and stored to inside it by the enclosing function.
+func ruleLoopCapture(c *Ctx, r *Report) {
+	const rule = "R-LOOP-CAPTURE"
+	desc := "a closure created in a loop captures no variable that the loop itself reassigns"
+	nmk, nbad := 0, 0
+	for _, fn := range c.LibFuncs() {
+		if funcPkg(fn) != c.Engine {
+			continue
+		}
+		eachInstr(fn, func(in ssa.Instruction) {
+			mk, ok := in.(*ssa.MakeClosure)
+			if !ok || !reachableFromSucc(mk.Block(), mk.Block()) {
+				return
+			}
+			nmk++
+			inSameCycle := func(b *ssa.BasicBlock) bool {
+				return b == mk.Block() || (reachableFromSucc(b, mk.Block()) && reachableFromSucc(mk.Block(), b))
+			}
+			for _, bnd := range mk.Bindings {
+				cell, ok := bnd.(*ssa.Alloc)
+				if !ok || inSameCycle(cell.Block()) {
+					continue // not a cell, or a cell of its own per iteration
+				}
+				for _, ref := range *cell.Referrers() {
+					st, ok := ref.(*ssa.Store)
+					if !ok || st.Addr != ssa.Value(cell) || st.Parent() != fn || !inSameCycle(st.Block()) {
+						continue
+					}
+					nbad++
+					name := cell.Comment
+					r.bad(rule, fmt.Sprintf("%s/%s", fname(fn), name), c.at(st), desc, "`"+name+"` is declared outside the loop, assigned in every iteration here and captured by the closure created at "+c.at(mk)+": when the closures run, all of them see the value of the last iteration")
+					return
+				}
+			}
+		})
+	}
+	if nbad == 0 {
+		r.ok(rule, "scan/closures-in-loops", "-", desc, fmt.Sprintf("%d closures created inside loops examined", nmk), true)
 	}
 }
